@@ -885,12 +885,42 @@ func c21ExecDecomp(in KV) string {
 			res = "ok+alert"
 		}
 	}
+	// The recovered message must stay what it is while the caller holds it: other connections of
+	// the process receive their compressed certificates (same and another algorithm, messages of
+	// the same and of a slightly smaller size, different content), then the held result is read again.
+	after := "-"
+	if cm != nil && err == nil {
+		c21LaterDecompressions(alg, len(body))
+		after = "same"
+		if c2, o2, s2 := c21HexListE(cm.Certificates), hx(cm.OCSPStaple), c21HexListE(cm.SCTs); c2 != certs || o2 != ocsp || s2 != scts {
+			after = c2 + "|" + o2 + "|" + s2
+		}
+	}
 	dstr := hx(d.data)
 	if bytes.Equal(d.data, body) && len(body) > 0 {
 		dstr = "orig"
 	}
-	return fmt.Sprintf("orig=%s d=%s cs=%s term=%s eager=%v clen=%d res=%s why=%s certs=%s ocsp=%s scts=%s alloc=%d base=%d mk=%s lim=%d",
-		hx(body), dstr, c21IntsStr(d.chunks, ","), d.term, d.eager, len(comp), res, c21WhyClass(err), certs, ocsp, scts, alloc, d.alloc, mk, tls.VerifMaxHandshakeCertificateMsg)
+	return fmt.Sprintf("orig=%s d=%s cs=%s term=%s eager=%v clen=%d res=%s why=%s certs=%s ocsp=%s scts=%s after=%s alloc=%d base=%d mk=%s lim=%d",
+		hx(body), dstr, c21IntsStr(d.chunks, ","), d.term, d.eager, len(comp), res, c21WhyClass(err), certs, ocsp, scts, after, alloc, d.alloc, mk, tls.VerifMaxHandshakeCertificateMsg)
+}
+
+// c21LaterDecompressions runs decompressCert for other connections after a result has been handed
+// out: three messages (0x5a.. / 0xa5.. filled, unparsable on purpose — the bytes are what matters)
+// of n, n-1 and n/2 bytes under the same and the next algorithm.
+func c21LaterDecompressions(alg, n int) {
+	encs := map[int]string{1: "zlib:1:15:-", 2: "brotli:1:16:-", 3: "zstd:1:15:-:-:-"}
+	for i, sz := range []int{n, n - 1, n / 2} {
+		if sz < 0 {
+			sz = 0
+		}
+		a := alg
+		if i == 1 {
+			a = alg%3 + 1
+		}
+		body := bytes.Repeat([]byte{byte(0x5a + 0x4b*i)}, sz)
+		comp := c21Encode(encs[a], body)
+		tls.VerifDecompressCert(&c21SinkConn{}, []uint16{1, 2, 3}, uint16(a), uint32(sz), comp)
+	}
 }
 
 // ---------- family cc_codec ----------
@@ -1144,14 +1174,75 @@ func c21GenHS(r *Rng, i int, tier string) string {
 	if !inf.hasExt && i < len(ids) && r.Bool() {
 		mode = "plain"
 	}
-	return fmt.Sprintf("id=%s adv=%s chain=%s mode=%s alg=%d enc=%s mut=%s dd=%d tail=%d creq=%d ocsp=%d pol=%s",
-		idName(inf.id), advS, chain, mode, alg, enc, mut, dd, tail, creq, r.Intn(2), Pick(r, []string{"big", "decl", "rnd7"}))
+	// rebuilt hellos: the UConn gets several presets (hello built in between), with and without the
+	// compress_certificate extension; what counts is the hello that is finally sent
+	seq := "-"
+	if i >= len(ids) && inf.hasExt && !strings.Contains(idName(inf.id), "PSK") && (i%6 == 0 || r.Intn(12) == 0) {
+		sets := [][]int{{1}, {2}, {3}, {1, 2}, {2, 3}, {3, 1}, {1, 2, 3}}
+		a, b := Pick(r, sets), Pick(r, sets)
+		w := func(x []int) string { return "w" + c21IntsStr(x, "+") }
+		stale := a[r.Intn(len(a))]
+		switch (i / 6) % 5 {
+		case 0:
+			seq, alg = w(a)+">wo", stale
+		case 1:
+			seq, alg = w(a)+">drop", stale
+		case 2:
+			seq, alg = w(a)+">"+w(b), stale // stale or still advertised, as it falls
+		case 3:
+			seq, alg = "wo>"+w(b), b[r.Intn(len(b))]
+		default:
+			seq, alg = w(a)+">wo>"+w(b), Pick(r, []int{stale, b[0]})
+		}
+		advS, mode, mut, dd, tail = "-", "comp", "none", 0, 0
+		enc = c21GenEnc(r, map[int]string{1: "zlib", 2: "brotli", 3: "zstd"}[alg], 600)
+	}
+	return fmt.Sprintf("id=%s adv=%s seq=%s chain=%s mode=%s alg=%d enc=%s mut=%s dd=%d tail=%d creq=%d ocsp=%d pol=%s",
+		idName(inf.id), advS, seq, chain, mode, alg, enc, mut, dd, tail, creq, r.Intn(2), Pick(r, []string{"big", "decl", "rnd7"}))
 }
 
+// c21SpecWith returns the parrot's spec with the algorithm list of its compress_certificate
+// extension replaced (algs != nil) or with the extension removed (algs == nil).
+func c21SpecWith(id tls.ClientHelloID, algs []int) (*tls.ClientHelloSpec, error) {
+	spec, err := tls.UTLSIdToSpec(id)
+	if err != nil {
+		return nil, err
+	}
+	var kept []tls.TLSExtension
+	for _, e := range spec.Extensions {
+		if x, ok := e.(*tls.UtlsCompressCertExtension); ok {
+			if algs == nil {
+				continue
+			}
+			x.Algorithms = nil
+			for _, a := range algs {
+				x.Algorithms = append(x.Algorithms, tls.CertCompressionAlgo(a))
+			}
+		}
+		kept = append(kept, e)
+	}
+	spec.Extensions = kept
+	return &spec, nil
+}
+
+// c21ExecHS: a handshake that runs into its deadline (encoder set-up inside the server's hook on a
+// loaded machine) says nothing about the property: it is repeated once with a longer deadline.
 func c21ExecHS(in KV) string {
+	c21Encode(in["enc"], []byte("warm-up")) // cached zstd encoders are built outside the deadline
+	out, timedOut := c21ExecHSOnce(in, 20*time.Second)
+	if timedOut {
+		out, timedOut = c21ExecHSOnce(in, 60*time.Second)
+		if timedOut {
+			return "out=timeout"
+		}
+	}
+	return out
+}
+
+func c21ExecHSOnce(in KV, timeout time.Duration) (string, bool) {
 	id, ok := idByName(in["id"])
 	if !ok {
-		return "out=bad-id"
+		return "out=bad-id", false
 	}
 	k := kit()
 	leaf := k.leaf["ecdsa"]
@@ -1206,11 +1297,11 @@ func c21ExecHS(in KV) string {
 	if in["creq"] == "1" {
 		scfg.ClientAuth = tls.RequestClientCert
 	}
-	opts := HSOpts{ID: id, ClientCfg: &tls.Config{OmitEmptyPsk: true}, ServerCfg: scfg, Hooks: hooks, AppData: []byte("c21")}
+	opts := HSOpts{ID: id, ClientCfg: &tls.Config{OmitEmptyPsk: true}, ServerCfg: scfg, Hooks: hooks, AppData: []byte("c21"), Timeout: timeout}
 	if adv := c21Ints(in["adv"], "+"); len(adv) > 0 {
 		spec, err := tls.UTLSIdToSpec(id)
 		if err != nil {
-			return "out=no-spec"
+			return "out=no-spec", false
 		}
 		for _, e := range spec.Extensions {
 			if x, ok := e.(*tls.UtlsCompressCertExtension); ok {
@@ -1222,6 +1313,49 @@ func c21ExecHS(in KV) string {
 		}
 		opts.ID, opts.Spec = tls.HelloCustom, &spec
 	}
+	if seq := in["seq"]; seq != "" && seq != "-" {
+		// w<algs> = ApplyPreset of the parrot's spec with that algorithm list, wo = ApplyPreset of the
+		// spec without the extension, drop = the extension taken out of uconn.Extensions. The hello is
+		// built (BuildHandshakeStateWithoutSession) after every step but the last; Handshake builds the
+		// one that is sent.
+		steps := strings.Split(seq, ">")
+		stepSpec := func(st string) (*tls.ClientHelloSpec, error) {
+			if st == "wo" {
+				return c21SpecWith(id, nil)
+			}
+			return c21SpecWith(id, c21Ints(st[1:], "+"))
+		}
+		first, err := stepSpec(steps[0])
+		if err != nil {
+			return "out=no-spec", false
+		}
+		opts.ID, opts.Spec = tls.HelloCustom, first
+		opts.Prepare = func(u *tls.UConn) error {
+			for _, st := range steps[1:] {
+				if err := u.BuildHandshakeStateWithoutSession(); err != nil {
+					return err
+				}
+				if st == "drop" {
+					var kept []tls.TLSExtension
+					for _, e := range u.Extensions {
+						if _, ok := e.(*tls.UtlsCompressCertExtension); !ok {
+							kept = append(kept, e)
+						}
+					}
+					u.Extensions = kept
+					continue
+				}
+				sp, err := stepSpec(st)
+				if err != nil {
+					return err
+				}
+				if err := u.ApplyPreset(sp); err != nil {
+					return err
+				}
+			}
+			return nil
+		}
+	}
 	res := runHS(opts)
 	mu.Lock()
 	defer mu.Unlock()
@@ -1230,7 +1364,7 @@ func c21ExecHS(in KV) string {
 		hasExt, algs = c21HelloCompressAlgs(chs[len(chs)-1])
 	}
 	if orig == nil {
-		return fmt.Sprintf("out=no-certificate client=%s server=%s", errClass(res.ClientErr), errClass(res.ServerErr))
+		return fmt.Sprintf("out=no-certificate client=%s server=%s", errClass(res.ClientErr), errClass(res.ServerErr)), res.TimedOut
 	}
 	var d c21Drained
 	if in["mode"] != "plain" {
@@ -1243,6 +1377,24 @@ func c21ExecHS(in KV) string {
 	var peer [][]byte
 	for _, c := range res.ClientState.PeerCertificates {
 		peer = append(peer, c.Raw)
+	}
+	// What the first connection holds must stay what it is: another connection of the process then
+	// receives its own (smaller) compressed certificate, and the first one's peer certificates are
+	// read again afterwards.
+	// rendered now: the slices may alias the buffer the certificate was decompressed into
+	peerS, ocspS, sctsS := c21HexListE(peer), hx(res.ClientState.OCSPResponse), c21HexListE(res.ClientState.SignedCertificateTimestamps)
+	peerAfter := "-"
+	if res.ClientErr == nil && res.PrepareErr == nil && in["mode"] != "plain" && len(peer) > 0 {
+		before := peerS
+		c21LaterHandshake()
+		var again [][]byte
+		for _, c := range res.UConn.ConnectionState().PeerCertificates {
+			again = append(again, c.Raw)
+		}
+		peerAfter = "same"
+		if a := c21HexListE(again); a != before {
+			peerAfter = a
+		}
 	}
 	cl := "ok"
 	if res.PrepareErr != nil {
@@ -1257,13 +1409,41 @@ func c21ExecHS(in KV) string {
 		// only the header matters for an over-long message; keep the line small
 		rawOut = hx(raw[:12]) + fmt.Sprintf(" rawpad=%d", len(raw)-12)
 	}
-	return fmt.Sprintf("ext=%v algs=%s vers=%04x orig=%s raw=%s d=%s cs=%s term=%s eager=%v client=%s why=%s server=%s peer=%s ocsp=%s scts=%s echo=%v",
+	return fmt.Sprintf("ext=%v algs=%s vers=%04x orig=%s raw=%s d=%s cs=%s term=%s eager=%v client=%s why=%s server=%s peer=%s ocsp=%s scts=%s echo=%v peerafter=%s",
 		hasExt, c21IntsStr(algs, ","), res.ClientState.Version, hx(orig), rawOut, dstr, c21IntsStr(d.chunks, ","), d.term, d.eager,
-		cl, c21WhyClass(res.ClientErr), errClass(res.ServerErr), c21HexListE(peer), hx(res.ClientState.OCSPResponse), c21HexListE(res.ClientState.SignedCertificateTimestamps), res.EchoOK)
+		cl, c21WhyClass(res.ClientErr), errClass(res.ServerErr), peerS, ocspS, sctsS, res.EchoOK, peerAfter), res.TimedOut
+}
+
+// c21LaterHandshake: a second connection (Chrome 120, brotli) receives a compressed certificate
+// message that is smaller than any the first connection can have received and differs from it (the
+// kit's ECDSA leaf for another name, alone; that handshake then fails name verification, after the
+// decompression) — also a third connection with zlib (Safari 16).
+func c21LaterHandshake() {
+	k := kit()
+	for _, c := range []struct {
+		id  tls.ClientHelloID
+		alg uint16
+		enc string
+	}{{tls.HelloChrome_120, 2, "brotli:1:16:-"}, {tls.HelloSafari_16_0, 1, "zlib:1:15:-"}} {
+		c := c
+		done := false
+		hooks := &tls.VerifServerHooks{RewriteHandshake: func(data []byte) []byte {
+			if len(data) < 4 || data[0] != 11 || done {
+				return data
+			}
+			done = true
+			m, err := tls.VerifCompressedCertMarshal(c.alg, uint32(len(data)-4), c21Encode(c.enc, data[4:]))
+			if err != nil {
+				return data
+			}
+			return m
+		}}
+		runHS(HSOpts{ID: c.id, ServerCfg: &tls.Config{Certificates: []tls.Certificate{k.wrongName}}, Hooks: hooks})
+	}
 }
 
 func init() {
 	register(&Family{Name: "cc_decomp", Gen: c21GenDecomp, Exec: c21ExecDecomp, Timeout: 60 * time.Second})
 	register(&Family{Name: "cc_codec", Gen: c21GenCodec, Exec: c21ExecCodec})
-	register(&Family{Name: "cc_hs", Gen: c21GenHS, Exec: c21ExecHS, Timeout: 30 * time.Second})
+	register(&Family{Name: "cc_hs", Gen: c21GenHS, Exec: c21ExecHS, Timeout: 180 * time.Second})
 }
